@@ -718,10 +718,10 @@ func TestC03(t *testing.T) {
 
 	im, hm, rm := idMap{}, hashMap{}, hashMap{}
 
-	r.Cases("directed", r.N(40, 2000), func(c *ev.Case) { directed(c, im) })
+	r.Cases("directed", r.N(40, 1000), func(c *ev.Case) { directed(c, im) })
 	r.Cases("consumption", r.N(10, 200), consumption)
 
-	r.Cases("tx", r.N(1200, 120000), func(c *ev.Case) {
+	r.Cases("tx", r.N(1200, 60000), func(c *ev.Case) {
 		x := txgen.TxData(c.Rand)
 		checkTxMutations(c, im, x)
 		c.Count("transactions", 1)
@@ -730,7 +730,7 @@ func TestC03(t *testing.T) {
 		}
 	})
 
-	r.Cases("header", r.N(1000, 100000), func(c *ev.Case) {
+	r.Cases("header", r.N(1000, 50000), func(c *ev.Case) {
 		x := txgen.BlockHeader(c.Rand)
 		checkHeaderMutations(c, hm, x)
 		c.Count("headers", 1)
@@ -739,7 +739,7 @@ func TestC03(t *testing.T) {
 		}
 	})
 
-	r.Cases("block", r.N(400, 40000), func(c *ev.Case) {
+	r.Cases("block", r.N(400, 20000), func(c *ev.Case) {
 		x := txgen.Block(c.Rand)
 		checkBlock(c, hm, rm, x)
 		c.Count("blocks", 1)
